@@ -8,7 +8,7 @@ import z3
 from symx import *  # noqa: F403
 from symx.runner import Unit, restore_shadows, shadow
 
-from .search_common import conj
+from .search_common import conj, implies
 
 PROPERTY = 'C10'
 EXPLANATION = ('Structural clauses, fully symbolic geometry: RadialNumericalBH.__init__ and fill_radial_cells run on symbolic radii, '
@@ -305,6 +305,104 @@ class _Enough(Exception):
     pass
 
 
+class ResampleInterp:
+    """scipy.interpolate.interp1d by contract: the default / 'linear' kind returns the convex combination of the two bracketing samples;
+    any other kind is an interpolant through the samples about whose values between them nothing is known here"""
+    made = []
+
+    def __init__(self, x, y, kind='linear', **k):
+        self.x, self.y, self.kind = [float(v) for v in x], list(y), kind
+        ResampleInterp.made.append(self)
+
+    def __call__(self, v):
+        out = []
+        for q in v:
+            q = float(q)
+            if self.kind in (None, 'linear'):
+                i = max(j for j in range(len(self.x) - 1) if self.x[j] <= q + 1e-12) if q < self.x[-1] else len(self.x) - 2
+                w = (q - self.x[i]) / (self.x[i + 1] - self.x[i])
+                out.append(self.y[i] + w * (self.y[i + 1] - self.y[i]))
+            else:
+                hit = [j for j, xv in enumerate(self.x) if abs(xv - q) < 1e-12]
+                out.append(self.y[hit[0]] if hit else Sym(Engine.cur.fresh('interp')))
+        return real_np.array(out, dtype=object)
+
+
+def published_fn(k, cells, twin=False):
+    """the 30 published points of g and g_bhw (three solves of the real loop, then the real resampling code): non-decreasing and within
+    the range of the computed response whenever the computed response is non-decreasing (which the step units establish)"""
+    def fn(e):
+        import ghedesigner.radial_numerical_borehole as R
+        STATE['step'] = 0
+        sut = borehole(k)
+        n = sum(cells)
+        T0 = [e.real('T%d' % i, 20, 120) for i in range(n)]
+        e.assume(T0[n - 1] == 20)
+        ResampleInterp.made = []
+        shadow(R, 'interp1d', ResampleInterp)
+        rn = R.RadialNumericalBH(sut)
+        (rn.num_fluid_cells, rn.num_conv_cells, rn.num_pipe_cells, rn.num_grout_cells, rn.num_soil_cells) = cells
+        rn.num_cells = n
+        rn.bh_wall_idx = sum(cells[:4])
+        rn.thickness_soil_cell = (rn.r_far_field - rn.r_borehole) / rn.num_soil_cells
+        rn.thickness_grout_cell = (rn.r_borehole - rn.r_out_tube) / rn.num_grout_cells
+        rn.thickness_pipe_cell = (rn.r_out_tube - rn.r_in_tube) / rn.num_pipe_cells
+        rn.thickness_conv_cell = (rn.r_in_tube - rn.r_convection) / rn.num_conv_cells
+        rn.thickness_fluid_cell = (rn.r_convection - rn.r_fluid) / rn.num_fluid_cells
+        orig_fill = rn.fill_radial_cells
+
+        def fill(a, b):
+            rc = orig_fill(a, b)
+            for i in range(n):
+                rc[R.CellProps.TEMP, i] = T0[i]
+            return rc
+        rn.fill_radial_cells = fill
+        STATE['sol'], STATE['sys'], STATE['interp'] = [], [], []
+        rn.calc_sts_g_functions(sut, final_time=360.0)
+        if twin:
+            return False
+        cs = [len(ResampleInterp.made) >= 2]
+        for itp, pub in zip(ResampleInterp.made[:2], (rn.g, rn.g_bhw)):
+            raw = itp.y
+            premise = conj([raw[i] <= raw[i + 1] for i in range(len(raw) - 1)])
+            pub = list(pub)
+            concl = conj([pub[i] <= pub[i + 1] + 1e-12 for i in range(len(pub) - 1)] + [pub[0] >= raw[0] - 1e-12, pub[-1] <= raw[-1] + 1e-12, len(pub) == 30])
+            cs.append(implies(premise, concl))
+        return conj(cs)
+    return fn
+
+
+def published_replay(k):
+    def replay(model, notes):
+        """native: the real model of the catalogue borehole - published g and g_bhw non-decreasing and inside the computed range"""
+        restore_shadows()
+        import numpy as np
+
+        import ghedesigner.radial_numerical_borehole as R
+        sut = borehole(k)
+        rn = R.RadialNumericalBH(sut)
+        raws = []
+        real_itp = R.interp1d
+
+        def spy(x, y, *a, **kw):
+            raws.append(np.array(y, dtype=float))
+            return real_itp(x, y, *a, **kw)
+        shadow(R, 'interp1d', spy)
+        try:
+            rn.calc_sts_g_functions(sut)
+        finally:
+            restore_shadows()
+        bad = {}
+        for nm, pub, raw in (('g', np.array(rn.g, dtype=float), raws[0]), ('g_bhw', np.array(rn.g_bhw, dtype=float), raws[1])):
+            steps = np.diff(pub)
+            if (steps < -1e-9).any():
+                bad[nm + '_decreasing_steps'] = int((steps < -1e-9).sum())
+            if pub.max() > raw.max() + 1e-9 or pub.min() < raw.min() - 1e-9:
+                bad[nm + '_range'] = [float(pub.min()), float(pub.max()), float(raw.min()), float(raw.max())]
+        return bool(bad), dict(borehole=k, findings=bad)
+    return replay
+
+
 def time_axis_fn(k, cells, twin=False):
     """the time label attached to successive solves advances by the same step that the capacitance terms of the system were built
     with, for the borehole's own (default) simulation period - the first three solves of the real loop"""
@@ -488,6 +586,11 @@ def units(tier, seed):
                 us.append(Unit('step_%s_bh%d_%dcells' % (mode, k, sum(cells)), dynamic_fn(k, cells, mode), dynamic_replay(k, cells, mode), setup, F[2:],
                                'borehole %d of the catalogue, mesh %s = %d cells; previous temperatures all reals in [20,120], far field 20' % (k, '/'.join(map(str, cells)), sum(cells)),
                                AS, ST, max_seconds=1500, timeout_ms=600000))
+    for k in ([0, 6] if tier == 'quick' else list(range(12))):
+        us.append(Unit('published_points_bh%d' % k, published_fn(k, (3, 1, 2, 3, 8)), published_replay(k), setup, F[2:],
+                       'borehole %d of the catalogue, three solves of the real loop from arbitrary previous temperatures, then the real resampling to 30 points' % k,
+                       AS, ST + ['scipy interp1d -> contract: linear kind = convex combination of the bracketing samples; any other kind = unknown values between the samples'],
+                       max_seconds=900))
     for k in ([0, 2, 8] if tier == 'quick' else list(range(12))):
         us.append(Unit('time_axis_bh%d' % k, time_axis_fn(k, (3, 1, 2, 3, 8)), time_axis_replay(k, (3, 1, 2, 3, 8)), setup, F[2:],
                        'borehole %d of the catalogue with its own default simulation period; first three solves of the real loop; previous temperatures symbolic' % k,
